@@ -512,3 +512,42 @@ Theorem parse_dictionary_lines ls :
   ls <> [] -> Forall (fun l => ~ In 10 l) ls ->
   parse_dictionary (join_on 10 ls) = parse_lines ls.
 Proof. intros H1 H2. unfold parse_dictionary. rewrite pin_line_sep. now rewrite split_join. Qed.
+
+(* ---------- a rendered assignment line: casing, quoting and white space ----------
+   line =  ws key ws '=' pad value pad ws   with ws any Unicode white space, pad any mix of
+   spaces and double quotes, key without '=' / surrounding white space / leading '#', value
+   non-empty and not beginning or ending with a space, a quote or white space.
+   It contributes exactly (lower key, value). *)
+Theorem assignment_rendered w1 k w2 p3 v p4 w4 :
+  forallb is_space w1 = true -> forallb is_space w2 = true -> forallb is_space w4 = true ->
+  forallb (memz [32; 34]) p3 = true -> forallb (memz [32; 34]) p4 = true ->
+  k <> [] -> ~ In 61 k -> head_not is_space k = true -> last_not is_space k = true ->
+  head_not (Z.eqb 35) k = true ->
+  v <> [] -> head_not (memz [32; 34]) v = true -> last_not (memz [32; 34]) v = true ->
+  last_not is_space v = true ->
+  assignment (w1 ++ k ++ w2 ++ 61 :: p3 ++ v ++ p4 ++ w4) = Some (lower k, v).
+Proof.
+  intros Hw1 Hw2 Hw4 Hp3 Hp4 Hk Hkeq Hkh Hkl Hkc Hv Hvh Hvl Hvs.
+  set (R := p3 ++ v ++ rstrip_p is_space p4).
+  assert (S1 : strip (w1 ++ k ++ w2 ++ 61 :: p3 ++ v ++ p4 ++ w4) = (k ++ w2) ++ 61 :: R).
+  { unfold strip, strip_p, lstrip_p. rewrite dropwhile_app_all by assumption.
+    rewrite dropwhile_stop by (destruct k; [contradiction|exact Hkh]).
+    rewrite app_assoc. rewrite rstrip_p_keep by reflexivity. f_equal. f_equal.
+    destruct (last_not_split is_space v Hv Hvs) as (v' & c & -> & Hc).
+    replace (p3 ++ (v' ++ [c]) ++ p4 ++ w4) with (((p3 ++ v') ++ c :: p4) ++ w4)
+      by (rewrite <- !app_assoc; reflexivity).
+    rewrite rstrip_p_app_all by assumption. rewrite rstrip_p_keep by assumption.
+    unfold R. rewrite <- !app_assoc. reflexivity. }
+  unfold assignment. rewrite S1.
+  assert (Hne : nonempty ((k ++ w2) ++ 61 :: R) = true) by (destruct k; [contradiction|reflexivity]).
+  assert (Hnc : startswith [35] ((k ++ w2) ++ 61 :: R) = false).
+  { destruct k as [|c0 k']; [contradiction|]. cbn [head_not] in Hkc. apply negb_true_iff in Hkc.
+    cbn [app startswith]. now rewrite Hkc. }
+  rewrite Hne, Hnc. simpl negb. cbn [orb].
+  rewrite partition_app.
+  - f_equal. f_equal.
+    + f_equal. change (k ++ w2) with ([] ++ k ++ w2). unfold strip. now apply strip_p_core.
+    + unfold strip_chars, R. apply strip_p_core; [assumption|now apply forallb_rstrip|assumption|assumption].
+  - rewrite in_app_iff. intros [H|H]; [contradiction|].
+    rewrite forallb_forall in Hw2. specialize (Hw2 _ H). discriminate.
+Qed.
